@@ -5,7 +5,7 @@
  *   small streams (~100-200 bytes): limits {0, 1, size-1, size, size+1, unlimited}
  *     around the stream's own header / body size, every segmentation with <=1
  *     (quick) / <=2 (thorough) cuts plus byte-at-a-time;
- *   big streams (12-20 kB, several read quanta): small limits {0,1,100,4096,8192},
+ *   big streams (40-60 kB, several read quanta): small limits {0,1,100,4096,20000},
  *     one write, named cut positions, byte-at-a-time (thorough).
  * Oracles (each execution on its own):
  *   delivered:  no request handed to the callback has a header section larger
@@ -14,7 +14,8 @@
  *               connection is closed — it is not left pending;
  *   buffered:   the connection's input buffer, sampled at the start of every
  *               event-loop iteration, never holds more than limit + one read
- *               quantum (4096 = EVBUFFER_MAX_READ_DEFAULT: bufferevent_readcb does
+ *               quantum (16384 = MAX_SINGLE_READ_DEFAULT, which bufferevent_init_common_
+ *               installs as the input evbuffer's max_read: bufferevent_readcb does
  *               one evbuffer_read() of at most that many bytes per readiness
  *               event and runs the http parser right after it).
  * Header size is measured as the pinned code measures it: request line plus
@@ -23,7 +24,7 @@
 #include "httpsrv.h"
 #include "rfc9112.h"
 
-#define QUANTUM 4096
+#define QUANTUM 16384
 #define UNLIM (-1L)
 
 struct kase {
@@ -38,7 +39,7 @@ struct kase {
 	uint64_t first, nseg;
 };
 static struct kase *K; static int nk, capk;
-static int max_cuts = 1, big_bytewise = 0;
+static int max_cuts = 1, big_bytewise = 0, only = 0; /* only: 1 small, 2 big */
 
 static struct kase *new_case(void)
 {
@@ -104,7 +105,7 @@ static void add_small(const char *cls, const unsigned char *b, size_t n)
 
 static void add_big(const char *cls, const unsigned char *b, size_t n, int header_side)
 {
-	static const long lims[] = { 0, 1, 100, 4096, 8192 };
+	static const long lims[] = { 0, 1, 100, 4096, 20000 };
 	struct kase probe; memset(&probe, 0, sizeof probe); probe.b = b; probe.n = n; measure(&probe);
 	for (int linger = 0; linger < 2; linger++)
 		for (int i = 0; i < 5; i++)
@@ -115,14 +116,14 @@ static void add_big(const char *cls, const unsigned char *b, size_t n, int heade
 				k->bl = !header_side || both ? lims[i] : UNLIM;
 				snprintf(k->cls, sizeof k->cls, "%s", cls);
 				k->M = probe.M; k->B = probe.B; k->complete = probe.complete;
-				size_t c[] = { 1, 100, 101, (size_t)lims[i], (size_t)lims[i] + 1, 4095, 4096, 4097, 8192, n / 2, n - 1 };
+				size_t c[] = { 1, 100, 101, (size_t)lims[i], (size_t)lims[i] + 1, 4096, 16383, 16384, 16385, 32768, n / 2, n - 1 };
 				for (size_t a = 0; a < sizeof c / sizeof c[0]; a++) {
 					int dup = 0;
 					if (c[a] == 0 || c[a] >= n) continue;
 					for (int z = 0; z < k->ncuts; z++) if (k->cuts[z] == c[a]) dup = 1;
 					if (!dup) k->cuts[k->ncuts++] = c[a];
 				}
-				k->nseg = 1 + (uint64_t)k->ncuts + (big_bytewise ? 1 : 0);
+				k->nseg = 1 + (uint64_t)k->ncuts + (big_bytewise && !linger && !both ? 1 : 0);
 			}
 }
 
@@ -135,6 +136,7 @@ static void build(void)
 	const char *ch10t = "Transfer-Encoding: chunked\r\n\r\n4\r\nabcd\r\n6\r\nefghij\r\n0\r\nTr: vvvvvv\r\n\r\n";
 	const char *next = "GET /2 HTTP/1.1\r\n\r\n";
 	/* small: {one long line, many short lines} x {CL, chunked, chunked+trailer, CL+Expect} */
+	if (only != 2) {
 	b = mk(&n, "POST /p HTTP/1.1\r\nX: %s\r\n%s%s", x60, cl10, next); add_small("long-line+cl", b, n);
 	b = mk(&n, "POST /p HTTP/1.1\r\n%s%s%s", many, cl10, next); add_small("many-lines+cl", b, n);
 	b = mk(&n, "POST /p HTTP/1.1\r\nX: %s\r\n%s%s", x60, ch10, next); add_small("long-line+chunked", b, n);
@@ -142,22 +144,25 @@ static void build(void)
 	b = mk(&n, "POST /p HTTP/1.1\r\nX: y\r\n%s%s", ch10t, next); add_small("chunked+trailer", b, n);
 	b = mk(&n, "PUT /p HTTP/1.1\r\nExpect: 100-continue\r\n%s%s", cl10, next); add_small("expect+cl", b, n);
 	b = mk(&n, "GET /%s HTTP/1.1\r\nHost: a\r\n\r\n%s", x60, next); add_small("long-request-line", b, n);
+	}
+	if (only == 1) goto done;
 
 	/* big: never-ending lines and many lines (headers), large bodies */
-	char *a20k = rep("a", 20000), *lines2k = rep("H: vv\r\n", 2000), *chunks2k = rep("6\r\nabcdef\r\n", 2000), *ones = rep("1", 20000);
+	char *a20k = rep("a", 60000), *lines2k = rep("H: vv\r\n", 8000), *chunks2k = rep("6\r\nabcdef\r\n", 5000), *ones = rep("1", 60000);
 	b = mk(&n, "GET /%s", a20k); add_big("endless-request-line", b, n, 1);
 	b = mk(&n, "GET / HTTP/1.1\r\nX: %s", a20k); add_big("endless-header-line", b, n, 1);
 	b = mk(&n, "GET / HTTP/1.1\r\n%s", lines2k); add_big("endless-header-lines", b, n, 1);
 	b = mk(&n, "GET / HTTP/1.1\r\nX: y\r\n %s", a20k); add_big("endless-continuation-line", b, n, 1);
-	b = mk(&n, "POST /p HTTP/1.1\r\nContent-Length: 20000\r\n\r\n%s%s", a20k, next); add_big("cl-20000", b, n, 0);
+	b = mk(&n, "POST /p HTTP/1.1\r\nContent-Length: 60000\r\n\r\n%s%s", a20k, next); add_big("cl-60000", b, n, 0);
 	b = mk(&n, "POST /p HTTP/1.1\r\nContent-Length: 99999999\r\n\r\n%s", a20k); add_big("cl-huge-partial", b, n, 0);
-	b = mk(&n, "POST /p HTTP/1.1\r\nTransfer-Encoding: chunked\r\n\r\n4E20\r\n%s\r\n0\r\n\r\n%s", a20k, next); add_big("chunk-20000", b, n, 0);
-	b = mk(&n, "POST /p HTTP/1.1\r\nTransfer-Encoding: chunked\r\n\r\n%s0\r\n\r\n%s", chunks2k, next); add_big("chunks-2000x6", b, n, 0);
+	b = mk(&n, "POST /p HTTP/1.1\r\nTransfer-Encoding: chunked\r\n\r\nEA60\r\n%s\r\n0\r\n\r\n%s", a20k, next); add_big("chunk-60000", b, n, 0);
+	b = mk(&n, "POST /p HTTP/1.1\r\nTransfer-Encoding: chunked\r\n\r\n%s0\r\n\r\n%s", chunks2k, next); add_big("chunks-5000x6", b, n, 0);
 	b = mk(&n, "POST /p HTTP/1.1\r\nTransfer-Encoding: chunked\r\n\r\n%s", ones); add_big("endless-chunk-size-line", b, n, 0);
 	b = mk(&n, "POST /p HTTP/1.1\r\nTransfer-Encoding: chunked\r\n\r\n3\r\nabc\r\n5 %s", a20k); add_big("endless-chunk-size-padding", b, n, 0);
 	b = mk(&n, "POST /p HTTP/1.1\r\nTransfer-Encoding: chunked\r\n\r\n3\r\nabc\r\n0\r\nT: %s", a20k); add_big("endless-trailer-line", b, n, 1);
 	b = mk(&n, "POST /p HTTP/1.1\r\nTransfer-Encoding: chunked\r\n\r\n3\r\nabc\r\n0\r\n%s", lines2k); add_big("endless-trailer-lines", b, n, 1);
 
+done:;
 	uint64_t t = 0;
 	for (int i = 0; i < nk; i++) { K[i].first = t; t += K[i].nseg; }
 }
@@ -274,6 +279,8 @@ int main(int argc, char **argv)
 		if (!strcmp(argv[i], "-P")) {
 			if (!strncmp(argv[i + 1], "cuts=", 5)) max_cuts = atoi(argv[i + 1] + 5);
 			if (!strcmp(argv[i + 1], "bigbytewise=1")) big_bytewise = 1;
+			if (!strcmp(argv[i + 1], "only=small")) only = 1;
+			if (!strcmp(argv[i + 1], "only=big")) only = 2;
 		}
 	build();
 	struct mc_config cfg = { .property = "C25", .init = init, .n_items = nk ? K[nk - 1].first + K[nk - 1].nseg : 0, .item = item };
